@@ -530,3 +530,156 @@ def check_strftime(ctx, rep):
         else:
             rep.bad("T-TSFMT", "T-TSFMT:time-text:%s" % short, b.where(), "the Time writer does not take its text from Display (calls: %s)" % sorted(set(x.split("::")[-1] for x in names)))
     return n
+
+
+def check_date_text(ctx, rep):
+    """a Date is written as the text the lexer recognises as a date: four-digit (zero-padded) year, two-digit month and day. The
+    `Display for Date` both writers use either hands the work to chrono (Debug / Display of NaiveDate, ISO 8601 with a padded year)
+    or formats year / month / day itself with width 4 / 2 / 2 and zero fill - a plain `{}` for the year writes `999-12-31`, which
+    is read as a number"""
+    from vlib import fmtargs
+
+    prog = ctx.prog
+    b = next((x for x in prog.bodies.values() if x.short == "<haystack::val::date::Date as std::fmt::Display>::fmt"), None)
+    if b is None:
+        rep.gap("Display for Date", "-", "not found")
+        return 0
+    names = [strip_generics(mir.callee_name(t) or "") for _, t in b.calls()]
+    key = "date-text:fixed-width"
+    own = [(bi, t) for bi, t in b.calls() if strip_generics(mir.callee_name(t) or "") in ("std::fmt::Formatter::write_fmt", "std::io::Write::write_fmt", "std::fmt::format")]
+    if not own and any(x.endswith(("NaiveDate as std::fmt::Debug>::fmt", "NaiveDate as std::fmt::Display>::fmt")) for x in names):
+        rep.ok("T-TSFMT", key, b.where(), "delegates to chrono's ISO 8601 text of NaiveDate")
+        return 1
+    problems = []
+    for bi, t in own:
+        a = fmtargs.arguments_of(b, t["args"][-1])
+        if not a or a[1] is None:
+            problems.append("format arguments not understood")
+            continue
+        pieces, args = a
+        ints = [p[1] for p in pieces if p[0] == "arg"]
+        if len(ints) < 3:
+            problems.append("fewer than three fields")
+            continue
+        for idx, (d, w) in enumerate(zip(ints[:3], (4, 2, 2))):
+            zero = "0" in str(d.get("flags") or "") or d.get("fill") == "0" or bool(d.get("zero"))
+            if d.get("width") != w or not zero:
+                problems.append("%s is written with width=%s flags=%s (needs width %d, zero fill)" % (("year", "month", "day")[idx], d.get("width"), d.get("flags"), w))
+    if own and not problems:
+        rep.ok("T-TSFMT", key, b.where(), "year / month / day written with width 4 / 2 / 2 and zero fill")
+    else:
+        rep.bad("T-TSFMT", "T-TSFMT:" + key, b.where(), "Display for Date %s: dates with a short year are written as text the reader does not take for a date" % ("; ".join(problems) or "neither delegates to chrono nor formats the three fields"))
+    return 1
+
+
+def check_zone_name_reader(ctx, rep):
+    """the Zinc reader of the zone name accepts every name the writer can emit: its length guard is evaluated for the short name of
+    every zone of the bundled database (a guard `len < 3` refuses GB and NZ). Same construction as the length guard of get_unit"""
+    prog = ctx.prog
+    names, src = zone_table(ctx)
+    b0, model, _why = short_name_model(prog)
+    if not names or model is None:
+        rep.gap("zone-name reader", "-", "zone table / short-name model not available")
+        return 0
+    b = prog.get("haystack::encoding::zinc::decode::scalar::date_time::parse_time_zone_name")
+    if b is None:
+        rep.gap("parse_time_zone_name", "-", "not found")
+        return 0
+
+    def short(z):
+        i = z.find(model[1]) if model[0] == "after-first" else z.rfind(model[1])
+        return z[i + 1:] if i >= 0 else z
+
+    lens = sorted({len(short(z).encode("utf-8")) for z in names})
+    # switches on a comparison of len(<name>) with a constant whose one edge leads to the error result
+    errb = {bi for bi, t in b.calls() if strip_generics(mir.callee_name(t) or "").endswith("make_generic_err")}
+    n = 0
+    refused = set()
+    for bi in b.rpo():
+        t = b.term(bi)
+        if t["k"] != "switch":
+            continue
+        d = G.describe(b, t["op"])
+        if d.kind != "binop" or d.v not in ("Eq", "Ne", "Lt", "Le", "Gt", "Ge") or len(d.args) != 2:
+            continue
+        cs = [a for a in d.args if a.kind == "const" and isinstance(a.v, int)]
+        ls = [a for a in d.args if "::len(" in repr(a)]
+        if len(cs) != 1 or len(ls) != 1:
+            continue
+        n += 1
+        k = cs[0].v
+        len_first = d.args[0] is ls[0]
+        import operator
+
+        opf = {"Eq": operator.eq, "Ne": operator.ne, "Lt": operator.lt, "Le": operator.le, "Gt": operator.gt, "Ge": operator.ge}[d.v]
+        vals = {int(v): tb for v, tb in t["targets"]}
+        true_edge = t["otherwise"] if 0 in vals else vals.get(1)
+        false_edge = vals.get(0, t["otherwise"] if 1 in vals else None)
+
+        def reaches_err(start):
+            seen, todo = set(), [start]
+            while todo:
+                x = todo.pop()
+                if x in seen or x is None:
+                    continue
+                seen.add(x)
+                if x in errb:
+                    return True
+                if b.term(x)["k"] == "switch":
+                    continue  # a further decision: not this guard's doing
+                todo.extend(b.succ(x))
+            return False
+
+        for L in lens:
+            truth = opf(L, k) if len_first else opf(k, L)
+            edge = true_edge if truth else false_edge
+            if reaches_err(edge):
+                refused.add(L)
+    key = "zone-name-reader:length-guard"
+    if refused:
+        ex = sorted({short(z) for z in names if len(short(z).encode("utf-8")) in refused})[:6]
+        rep.bad("T-ZONES", "T-ZONES:" + key, b.where(), "parse_time_zone_name refuses names of %s bytes, but the writer emits such names (%s): timestamps in those zones cannot be read back" % (sorted(refused), ", ".join(ex)))
+    else:
+        rep.ok("T-ZONES", key, b.where(), "the length guard lets every short name of the database through (lengths %d..%d, %d guards)" % (lens[0], lens[-1], n))
+    return 1
+
+
+def check_named_zone_constructor(ctx, rep):
+    """`DateTime::parse_from_rfc3339_with_timezone(text, zone)` puts the instant into the *named* zone on every successful path:
+    with the blocks that call make_date_time_with_tz(.., zone) removed, the only ways to the return go through an explicit `Err`.
+    A shortcut for some zone name (\"UTC\") that returns the offset-derived zone instead keeps the instant and loses the zone"""
+    prog = ctx.prog
+    b = prog.get("haystack::val::datetime::DateTime::parse_from_rfc3339_with_timezone")
+    if b is None:
+        rep.gap("DateTime::parse_from_rfc3339_with_timezone", "-", "not found")
+        return 0
+    mk = set()
+    for bi, t in b.calls():
+        if strip_generics(mir.callee_name(t) or "").endswith("make_date_time_with_tz") and len(t["args"]) > 1 and re.fullmatch(r"_2\**", repr(G.describe(b, t["args"][1]))):
+            mk.add(bi)
+    errs = set()
+    for bi in range(b.n):
+        for st in b.blocks[bi]["stmts"]:
+            if st["k"] == "assign" and st["rv"]["k"] == "agg" and st["rv"].get("variant") == "Err" and str(st["rv"].get("adt", "")).endswith("result::Result"):
+                errs.add(bi)
+        t = b.term(bi)
+        if t["k"] == "call" and strip_generics(mir.callee_name(t) or "").endswith("FromResidual>::from_residual"):
+            errs.add(bi)
+    seen, todo, leak = set(), [0], None
+    while todo:
+        x = todo.pop()
+        if x in seen or b.blocks[x].get("cleanup"):
+            continue
+        seen.add(x)
+        if x in mk or x in errs:
+            continue
+        if b.term(x)["k"] == "return":
+            leak = x
+            break
+        todo.extend(b.succ(x))
+    key = "named-zone-constructor:zone-from-name"
+    if mk and leak is None:
+        rep.ok("T-TZGUARD", key, b.where(min(mk)), "every successful path passes make_date_time_with_tz(value, <the zone argument>)")
+    else:
+        rep.bad("T-TZGUARD", "T-TZGUARD:" + key, b.where(leak) if leak is not None else b.where(), "parse_from_rfc3339_with_timezone can return a value without placing it in the named zone (%s): the instant is kept, the zone is not" % ("a path avoids make_date_time_with_tz" if mk else "make_date_time_with_tz is never given the zone argument"))
+    return 1
